@@ -46,6 +46,14 @@ def run(prop, tier, seed, t0):
         # the specification's own minimal printer is rejected by the real parser: the reference rule
         # (or the grammar) is off - a tool error, not a violation of C07
         raise vlib.ToolError("reference-minimal text of SyntaxRich does not parse like the full text, e.g. %s" % json.dumps(ref_problems[0])[:400])
+    # commented programs from the comment state machine (C09's cases) also count for C07 / C08
+    import c09
+    ccases, couts, cstates, ctrans, _, _ = c09.gen_and_replay(thorough)
+    for c, o in zip(ccases, couts):
+        evals += o["evals"]
+        for m in o["mismatches"]:
+            if m["prop"] == prop:
+                v.mismatch("%s commented %s %s :: %s" % (prop, m["tag"], m["driver"].split()[0], m["obs"][:40]), {"case": c, "mismatch": m})
     n = 6000 if thorough else 800
     tpath = os.path.join(vlib.BUILD, "c07_trace.ndjson")
     vlib.harness(["record", "c07", tpath, "--seed", str(seed), "--n", str(n), "--cli", vlib.CLI], timeout=3000)
@@ -72,7 +80,8 @@ def run(prop, tier, seed, t0):
     ev = {
         "property_id": prop, "tier": tier, "seed": seed, "level": "model_checking",
         "coverage": {
-            "states": r.distinct, "transitions": max(r.generated - r.distinct, 1),
+            "states": r.distinct + cstates, "transitions": max(r.generated - r.distinct, 1) + ctrans,
+            "commented_programs_from_comment_machine": len(ccases),
             "traces_validated_against_impl": 1, "trace_events": len(events), "trace_event_kinds": kinds,
             "evaluations": evals + len(events),
             "distinct_nontrivial": nontrivial + len({(e["src"], e["width"], e.get("driver")) for e in events}),
